@@ -107,6 +107,27 @@ impl Compound {
         }
     }
 
+    /// Raise the unit to the given power, or `None` if a power overflows.
+    pub(crate) fn pow(&self, n: i32) -> Option<Self> {
+        let mut names = BTreeMap::new();
+
+        if n != 0 {
+            for (unit, state) in &self.names {
+                let power = state.power.checked_mul(n)?;
+
+                names.insert(
+                    *unit,
+                    State {
+                        power,
+                        prefix: state.prefix,
+                    },
+                );
+            }
+        }
+
+        Some(Self::new(names))
+    }
+
     /// Test if this unit has a numerator.
     pub fn has_numerator(&self) -> bool {
         self.names.values().any(|s| s.power > 0)
